@@ -27,6 +27,8 @@ func checkC15(r *Report, p *Program) {
 	errorChecksMeanWhatTheySay(r, p, "R15.6", func(f *ssa.Function) bool { return strings.Contains(FK(f), "/customize.") })
 	resultKeptOnSuccess(r, p, "R15.7", 1)
 	relatedInformerMemo(r, p, "R15.8")
+	relatedNotifyTable(r, p, "R15.9")
+	handedMapsFilled(r, p, "R15.10")
 	// groups never wiped between rules
 	for _, key := range []string{"controller/common/api/v2.UniformObjectMap.InitGroup"} {
 		if f := fn(r, p, "R15.2", key); f != nil {
